@@ -38,6 +38,9 @@ type ChartDef struct {
 	// OneFile puts all manifest resources into ONE template file, separated by "--- # <id>" lines (a separator
 	// with a trailing comment is valid YAML); otherwise every resource has its own file.
 	OneFile bool `json:"onefile"`
+	// Lookup: the first template asks the cluster for a bystander object (lookup "v1" "ConfigMap" ...); a client-only
+	// rendering must answer that without sending anything
+	Lookup bool `json:"lookup"`
 }
 
 type ChartLib map[string]ChartDef
@@ -160,8 +163,12 @@ func BuildChart(name string, d ChartDef) (*chart.Chart, error) {
 		}
 		files = append(files, &loader.BufferedFile{Name: "templates/all.yaml", Data: []byte(sb.String())})
 	} else {
-		for _, id := range ids {
-			files = append(files, &loader.BufferedFile{Name: "templates/" + id + ".yaml", Data: []byte(resTemplate(id, d.Res[id]))})
+		for i, id := range ids {
+			t := resTemplate(id, d.Res[id])
+			if d.Lookup && i == 0 {
+				t = "{{- $seen := lookup \"v1\" \"ConfigMap\" \"" + RelNS + "\" \"by1\" }}\n" + t
+			}
+			files = append(files, &loader.BufferedFile{Name: "templates/" + id + ".yaml", Data: []byte(t)})
 		}
 	}
 	hids := make([]string, 0)
